@@ -111,6 +111,74 @@ func odometer(k int, fn func(vals []int64) bool) {
 	}
 }
 
+// hintWire identifies one prover-chosen value of the compiled system: output idx of the call of hint `id` with
+// nOut outputs on input `in` (as seen in an honest solve of the same assignment).
+type hintWire struct {
+	id   hint.ID
+	nOut int
+	in   string
+	idx  int
+}
+
+// discoverHintWires runs one honest solve with recording wrappers around the two hints the circuits use and
+// returns every hint output wire, whatever widths the circuit under test decomposes into.
+func discoverHintWires(sys *rmon.Sys, as frontend.Circuit) []hintWire {
+	var mu sync.Mutex
+	var wires []hintWire
+	seen := map[string]bool{}
+	rec := func(id hint.ID, honest hint.Function) hint.Function {
+		return func(q *big.Int, in []*big.Int, out []*big.Int) error {
+			key := fmt.Sprintf("%v|%d|%s", id, len(out), in[0].String())
+			mu.Lock()
+			if !seen[key] {
+				seen[key] = true
+				for i := range out {
+					wires = append(wires, hintWire{id, len(out), in[0].String(), i})
+				}
+			}
+			mu.Unlock()
+			return honest(q, in, out)
+		}
+	}
+	sys.Solve(as, rmon.Hints{rmon.NBitsID: rec(rmon.NBitsID, rmon.HonestNBits), rmon.InvZeroID: rec(rmon.InvZeroID, rmon.HonestInvZero)})
+	return wires
+}
+
+// odometerHints fixes the chosen wires to vals (others stay honest).
+func odometerHints(chosen []hintWire, vals []int64) rmon.Hints {
+	wrap := func(id hint.ID, honest hint.Function) hint.Function {
+		return func(q *big.Int, in []*big.Int, out []*big.Int) error {
+			if err := honest(q, in, out); err != nil {
+				return err
+			}
+			for k, w := range chosen {
+				if w.id == id && w.nOut == len(out) && w.in == in[0].String() {
+					out[w.idx].SetInt64(vals[k])
+				}
+			}
+			return nil
+		}
+	}
+	return rmon.Hints{rmon.NBitsID: wrap(rmon.NBitsID, rmon.HonestNBits), rmon.InvZeroID: wrap(rmon.InvZeroID, rmon.HonestInvZero)}
+}
+
+// chooseWires picks at most max wires for exhaustive enumeration: the low digits of each decomposition first
+// (they select the leaf), then the inverses, then higher digits.
+func chooseWires(all []hintWire, max int) []hintWire {
+	if len(all) <= max {
+		return all
+	}
+	var out []hintWire
+	for pass := 0; len(out) < max && pass < 64; pass++ {
+		for _, w := range all {
+			if len(out) < max && w.idx == pass {
+				out = append(out, w)
+			}
+		}
+	}
+	return out
+}
+
 // fixedNBits answers every NBits call having len(digits) outputs with digits.
 func fixedNBits(digits []int64) hint.Function {
 	return func(q *big.Int, in []*big.Int, out []*big.Int) error {
